@@ -65,12 +65,16 @@ static const int TQ[9]={5,10,20,40,80,120,160,200,240};          /* frame durati
 static const int RATES[3]={12000,32000,96000};
 #define NCFG (3*2*3*3*9*2*3*2)
 
-typedef struct { int fi,ch,ai,ci,di,vbr,ri,dtx; int Fs,app,cx,tq,rate,fsz,analysis; char name[160]; } cfg_t;
+typedef struct { int fi,ch,ai,ci,di,vbr,ri,dtx; int Fs,app,cx,tq,rate,fsz,analysis; int sk; char name[200]; } cfg_t;
+static const char *const SKN[4]={"decorrelated","dual-mono","near-mono","right-channel-silent"};
+static const int LOWRATES[3]={16000,20000,24000};
+/* idx = base + NCFG*(sk + 4*rx): sk = stereo active-signal kind (stereo alphabet part), rx > 0 overrides the bitrate with a low stereo rate */
 static void cfg_decode(long idx,cfg_t *c){
+   long ext=idx/NCFG; int rx; idx%=NCFG; c->sk=(int)(ext%4); rx=(int)(ext/4);
    c->dtx=idx%2; idx/=2; c->ri=idx%3; idx/=3; c->vbr=idx%2; idx/=2; c->di=idx%9; idx/=9; c->ci=idx%3; idx/=3; c->ai=idx%3; idx/=3; c->ch=1+idx%2; idx/=2; c->fi=idx%3;
-   c->Fs=FSS[c->fi]; c->app=APPS[c->ai]; c->cx=CXS[c->ci]; c->tq=TQ[c->di]; c->rate=RATES[c->ri]; c->fsz=c->Fs/2000*c->tq;
+   c->Fs=FSS[c->fi]; c->app=APPS[c->ai]; c->cx=CXS[c->ci]; c->tq=TQ[c->di]; c->rate=rx?LOWRATES[rx-1]:RATES[c->ri]; c->fsz=c->Fs/2000*c->tq;
    c->analysis = c->cx>=ANALYSIS_MIN_CX && c->Fs>=16000;
-   snprintf(c->name,sizeof c->name,"Fs=%d ch=%d app=%s complexity=%d frame=%gms %s bitrate=%d dtx=%d",c->Fs,c->ch,APPN[c->ai],c->cx,c->tq/2.0,c->vbr?"VBR":"CBR",c->rate,c->dtx);
+   snprintf(c->name,sizeof c->name,"Fs=%d ch=%d app=%s complexity=%d frame=%gms %s bitrate=%d dtx=%d%s%s",c->Fs,c->ch,APPN[c->ai],c->cx,c->tq/2.0,c->vbr?"VBR":"CBR",c->rate,c->dtx,(c->ch==2&&ext)?" stereo-signal=":"",(c->ch==2&&ext)?SKN[c->sk]:"");
 }
 /* sub-grids: 0 = full grid; 1 = quick grid (complexity {5,10}, bitrate {12k,32k}: SILK, hybrid and CELT all occur);
    2 = small grid for the sanitizer / decoder parts (complexity {5,10}; voip at 12k and 32k, audio at 32k, lowdelay at 12k) */
@@ -85,18 +89,22 @@ static int cfg_in_set(const cfg_t *c,int set){
 }
 
 /* ---- signal ---- */
-static short *g_act[3][3]; static int g_actlen[3];   /* [fs][ch] absolute time line, 6.4 s */
+static short *g_act[3][3]; static short *g_act2[3][4]; static int g_actlen[3];   /* [fs][ch] absolute time line, 6.4 s */
 static short *g_sil;
 static void mk_signals(void){
    int fi,ch; g_sil=calloc(48000/1000*120*2,sizeof(short));
    for(fi=0;fi<3;fi++){
       int Fs=FSS[fi], n=Fs*64/10, i; unsigned rs=1; g_actlen[fi]=n;
-      for(ch=1;ch<=2;ch++) g_act[fi][ch]=malloc(sizeof(short)*n*ch);
+      for(ch=1;ch<=2;ch++) g_act[fi][ch]=malloc(sizeof(short)*n*ch); for(ch=1;ch<4;ch++) g_act2[fi][ch]=malloc(sizeof(short)*n*2); g_act2[fi][0]=g_act[fi][2];
       for(i=0;i<n;i++){ double t=i/(double)Fs; int v,v2; rs=rs*1664525u+1013904223u;
          v=(int)(10000*sin(2*M_PI*(250+60*sin(7*t))*t)+5000*sin(2*M_PI*1800*t))+(int)(((rs>>16)&0x7fff)-16384)/3;
          v2=(int)(8000*sin(2*M_PI*(250+60*sin(7*t))*t+0.6)+6000*sin(2*M_PI*1800*t+1.1))+(int)(((rs>>8)&0x7fff)-16384)/3;
          if(v>32767)v=32767; if(v<-32768)v=-32768; if(v2>32767)v2=32767; if(v2<-32768)v2=-32768;
-         g_act[fi][1][i]=(short)v; g_act[fi][2][2*i]=(short)v; g_act[fi][2][2*i+1]=(short)v2; }
+         g_act[fi][1][i]=(short)v; g_act[fi][2][2*i]=(short)v; g_act[fi][2][2*i+1]=(short)v2;
+         /* stereo active-signal alphabet: dual-mono (L==R), near-mono (R = 0.9 L + small noise), right channel digitally silent */
+         g_act2[fi][1][2*i]=(short)v; g_act2[fi][1][2*i+1]=(short)v;
+         { int nm=(int)(0.9*v)+(int)(((rs>>4)&0x3ff)-512)/2; if(nm>32767)nm=32767; if(nm<-32768)nm=-32768; g_act2[fi][2][2*i]=(short)v; g_act2[fi][2][2*i+1]=(short)nm; }
+         g_act2[fi][3][2*i]=(short)v; g_act2[fi][3][2*i+1]=0; }
    }
 }
 
@@ -104,7 +112,7 @@ static void mk_signals(void){
 typedef struct { int since,run,seen,last_active,extra; } mon_t;    /* times in half ms */
 #define MAXLVL 6
 typedef struct {
-   cfg_t c; int k,gs,P,W,Lt,Lt0,encsz,n1,passidx,mixed; int swo[MAXLVL+1]; int swone[MAXLVL+1]; OpusEncoder *enc[MAXLVL+1]; mon_t mon[MAXLVL+1]; int sw[MAXLVL+1]; int nsw;
+   cfg_t c; int k,gs,P,W,Lt,Lt0,encsz,n1,passidx,mixed,skiptrunk; int swo[MAXLVL+1]; int swone[MAXLVL+1]; OpusEncoder *enc[MAXLVL+1]; mon_t mon[MAXLVL+1]; int sw[MAXLVL+1]; int nsw;
    long nfail; int decmode;
 } ctx_t;
 
@@ -145,10 +153,11 @@ static OpusEncoder *mk_encoder(const cfg_t *c,int *psz){
 static short g_mixbuf[5760*2];
 static int step2(ctx_t *x,OpusEncoder *e,mon_t *m,int active,int mixo,int onech,int fidx,unsigned char *pkt){
    const cfg_t *c=&x->c; int T=c->tq, n, dtx=-1, tiny; const char *why=NULL; char sig[64];
-   const short *in = active ? g_act[c->fi][c->ch]+(size_t)fidx*c->fsz*c->ch : g_sil;
+   const short *actl = c->ch==2 ? g_act2[c->fi][c->sk] : g_act[c->fi][1];
+   const short *in = active ? actl+(size_t)fidx*c->fsz*c->ch : g_sil;
    int start=m->since, kind, loud = active || mixo>0;
    if (mixo>0 || (onech && active)){
-      int i, os=c->Fs/2000*mixo, ch=c->ch; const short *a=g_act[c->fi][ch]+(size_t)fidx*c->fsz*ch;
+      int i, os=c->Fs/2000*mixo, ch=c->ch; const short *a=actl+(size_t)fidx*c->fsz*ch;
       for(i=0;i<c->fsz;i++){ int on = (i>=os) ? active : !active, k; for(k=0;k<ch;k++) g_mixbuf[i*ch+k] = (on && !(onech && k==0)) ? a[i*ch+k] : 0; }
       in=g_mixbuf;
    }
@@ -203,7 +212,7 @@ static int step(ctx_t *x,OpusEncoder *e,mon_t *m,int active,int fidx,unsigned ch
 static void hash_state(ctx_t *x,int lvl,int pos,int active,int used){
    if (!g_hash_states) return;
    { uint64_t h=mc_hash(x->enc[lvl],x->encsz,0xC20); h=mc_mix(h,mc_hash(&x->mon[lvl],sizeof(mon_t),1)); h=mc_mix(h,mc_mix(pos*2+active,used));
-     h=mc_mix(h,mc_hash(&x->c,8*sizeof(int),2)); mc_set_add(S_states,h); }
+     h=mc_mix(h,mc_hash(&x->c,8*sizeof(int),2)); h=mc_mix(h,mc_mix(x->c.sk,x->c.rate)); mc_set_add(S_states,h); }
 }
 
 /* mixo/onech describe how this segment was entered (first frame mixed / active samples on one channel only); mixused: the
@@ -292,21 +301,22 @@ static void sample_trunk(ctx_t *x){
 }
 
 typedef struct { int k,grid_q1,n1,mixed; } pass_t;
-static pass_t g_pass[2][8]; static int g_npass[2];   /* [0] DTX-on configurations, [1] DTX-off configurations */
+static pass_t g_pass[3][8]; static int g_npass[3];   /* [0] DTX-on configurations, [1] DTX-off configurations, [2] stereo-alphabet items */
 static void parse_passes(const char *s,int which){
    int n=0; while(*s && n<8){ int k=0,g=0,n1=0,m=0; if(sscanf(s,"%d:%d:%d:%d",&k,&g,&n1,&m)<2) break; if(k>MAXLVL-1)k=MAXLVL-1; g_pass[which][n].k=k; g_pass[which][n].grid_q1=2*g; g_pass[which][n].n1=n1; g_pass[which][n].mixed=m; n++; s=strchr(s,','); if(!s)break; s++; }
    g_npass[which]=n;
 }
 static void set_pass(ctx_t *x,const pass_t *p,int idx){
-   x->k=p->k; x->gs=p->grid_q1/x->c.tq; if(x->gs<1)x->gs=1; x->P=(3200/x->c.tq)/x->gs; x->n1=p->n1; x->passidx=idx; x->mixed=p->mixed;
+   x->k=p->k; x->gs=p->grid_q1/x->c.tq; if(x->gs<1)x->gs=1; x->P=(3200/x->c.tq)/x->gs; x->n1=p->n1; x->passidx=idx+x->skiptrunk; x->mixed=p->mixed;
    x->Lt = x->Lt0; if (x->mixed){ x->Lt=(80+x->c.tq-1)/x->c.tq; if(x->Lt<2)x->Lt=2; }   /* mixed passes follow a final active segment for max(2 frames, 40 ms) */
 }
 
 static void sched_item(long it,void *vctx){
    ctx_t x; int i,f,pi; unsigned char pkt[1500]; long cidx=g_items[it]; OpusEncoder *base; mon_t mon0; int which;
    (void)vctx; memset(&x,0,sizeof x);
-   cfg_decode(cidx,&x.c); which=!x.c.dtx;
+   cfg_decode(cidx,&x.c); which= cidx>=NCFG ? 2 : !x.c.dtx;
    x.W=(800+x.c.tq-1)/x.c.tq; x.Lt=(120+x.c.tq-1)/x.c.tq; if(x.Lt<3)x.Lt=3; x.Lt0=x.Lt;
+   x.skiptrunk = which==2;   /* stereo-alphabet items: the all-active schedule carries no DTX clause and is not walked again */
    set_pass(&x,&g_pass[which][0],0);
    mc_case("e2","%s",x.c.name);
    x.enc[0]=mk_encoder(&x.c,&x.encsz); for(i=1;i<=MAXLVL;i++) x.enc[i]=malloc(x.encsz); base=malloc(x.encsz);
@@ -324,7 +334,8 @@ static void sched_item(long it,void *vctx){
       for(f=0;f<x.W;f++) step(&x,x.enc[0],&x.mon[0],1,f,pkt);
       memcpy(base,x.enc[0],x.encsz); mon0=x.mon[0];
       if (x.c.dtx && (cidx%97)==3) sample_trunk(&x);
-      if (x.c.dtx && g_long_q1>0){
+      /* (cidx includes the stereo-alphabet extension) */
+      if (x.c.dtx && g_long_q1>0 && which!=2){
          /* one long gap: silence for --long ms (statement: gaps up to 5 s), then renewed activity */
          int L=g_long_q1/x.c.tq, gs=x.gs; x.gs=1; x.nsw=0; x.swo[0]=x.swo[1]=x.swone[0]=x.swone[1]=0; x.sw[x.nsw++]=0; x.sw[x.nsw++]=L;
          mc_case("e2","%s long gap %g ms",x.c.name,L*x.c.tq/2.0);
@@ -392,7 +403,7 @@ int main(int argc,char **argv){
    const char *mode; int cfgset; long i; mc_ctr *st,*tr,*dn;
    mc_init(argc,argv,"C20","sched");
    MC.part=mc_arg_s("--part","sched"); mode=mc_arg_s("--mode","sched");
-   parse_passes(mc_arg_s("--passes","2:100:0"),0); parse_passes(mc_arg_s("--passes-off","2:200:0"),1);
+   parse_passes(mc_arg_s("--passes","2:100:0"),0); parse_passes(mc_arg_s("--passes-off","2:200:0"),1); parse_passes(mc_arg_s("--passes-stereo",""),2);
    g_long_q1=(int)(2*mc_arg("--long",0)); g_mixgap_q1[0]=(int)(2*mc_arg("--mixgap",280)); g_mixgap_q1[1]=(int)(2*mc_arg("--mixgap2",0));
    cfgset=(int)mc_arg("--cfgset",0); g_hash_states=(int)mc_arg("--hash",1);
    c_sched=mc_counter("schedules"); c_enc=mc_counter("encodes"); c_eval=mc_counter("evaluations"); c_dtxpk=mc_counter("dtx_packets"); c_refresh=mc_counter("refresh_packets");
@@ -415,6 +426,14 @@ int main(int argc,char **argv){
    g_mode=!strcmp(mode,"dec");
    g_items=malloc(sizeof(long)*NCFG); g_nitems=0;
    for(i=0;i<NCFG;i++){ cfg_t c; cfg_decode(i,&c); if(!cfg_in_set(&c,cfgset)) continue; if(g_mode==1&&!c.dtx) continue; g_items[g_nitems++]=i; }
+   if (g_mode==0 && g_npass[2]>0){
+      /* stereo alphabet (--passes-stereo): DTX-on stereo configurations of the sub-grid x active-signal kind {decorrelated, dual-mono,
+         near-mono, right channel silent} x bitrate {the grid's own; from the 12k base also the low stereo rates 16, 20, 24 kb/s};
+         the (decorrelated, own rate) combination is already an ordinary item */
+      g_items=realloc(g_items,sizeof(long)*NCFG*17);
+      for(i=0;i<NCFG;i++){ cfg_t c; int sk,rx; cfg_decode(i,&c); if(!cfg_in_set(&c,cfgset)||c.ch!=2||!c.dtx) continue;
+         for(rx=0;rx<4;rx++) for(sk=0;sk<4;sk++){ if(rx&&c.ri!=0) continue; if(!rx&&!sk) continue; g_items[g_nitems++]=i+(long)NCFG*(sk+4*rx); } }
+   }
    mc_par(g_nitems,sched_item,NULL);
    *c_eval = g_mode? *c_dec : *c_sched;
    *st=mc_set_count(S_states); *tr=*c_enc+*c_decpk; *dn=mc_set_count(S_obs);
